@@ -143,7 +143,7 @@ example : accepted { state := .RESERVED_LOCAL, client := some false, headersRece
 theorem C08_server_cannot_open (c : Conn) (sid : Int) hs es pw pd pe (hsrv : c.cfg.client = false)
     (hno : hasStream c sid = false) :
     wp (sendHeaders sid hs es pw pd pe) (fun _ _ => False) (fun _ c' => c' = c) c := by
-  simp only [sendHeaders]
+  simp only [sendHeaders, sendHeadersTail, addPriority]
   wps
   simp only [hsrv, Bool.not_false, if_true, Bool.false_eq_true, if_false]
   repeat' (first | rfl | wps | split)
